@@ -124,7 +124,7 @@ public:
         if (user_mem) {
             // a pattern the emulator must not rely on; Reset() clears it
             std::memset(b.user_memory.data(), 0x5C, 0x80000);
-            if (b.mem() != b.user_memory.data())
+            if (b.fresh_mem() != b.user_memory.data() || b.mem() != b.user_memory.data())
                 out.violate("C11.read-mismatch", "GetDspMemory() does not return the user-supplied buffer");
         }
         b.reset();
